@@ -1696,10 +1696,12 @@ void register_fn_1()
     add<PairDriver<int, int>>("pair<int,int>", {"C20"});
     add<PairDriver<sim::Tracked, int>>("pair<Tracked,int>", {"C20", "C03"});
     add<PairDriver<sim::Tracked, sim::Tracked>>("pair<Tracked,Tracked>", {"C20", "C03"});
+    add<PairDriver<int, sim::TrackedOA>>("pair<int,TrackedOA>", {"C20", "C03"}); // over-aligned second element
     add<PairDriver<sim::TrackedMoveOnly, sim::Tracked>>("pair<TrackedMoveOnly,Tracked>", {"C20", "C03"});
     add<PairDriver<sim::TrackedCopyOnly, sim::TrackedB>>("pair<TrackedCopyOnly,TrackedB>", {"C20", "C03"});
     add<TupleDriver<int, int, int>>("tuple<int,int,int>", {"C20"});
     add<TupleDriver<sim::Tracked, int, sim::TrackedB>>("tuple<Tracked,int,TrackedB>", {"C20", "C03"});
     add<TupleDriver<sim::TrackedMoveOnly, sim::Tracked, int>>("tuple<TrackedMoveOnly,Tracked,int>", {"C20", "C03"});
+    add<TupleDriver<int, sim::TrackedOA, int>>("tuple<int,TrackedOA,int>", {"C20", "C03"}); // over-aligned middle element
 }
 #endif
